@@ -145,6 +145,191 @@ theorem solveForK_shift (d : F) (xs ys : List F) (hy : ys.length = xs.length) (h
 
 end
 
+
+/-! ### superposition -/
+
+section add
+omit [LinearOrder F] [IsStrictOrderedRing F]
+
+/-- the diagonal entries of an eliminated row -/
+def ediag (e : ERow F F) : F × F := (e.mid, e.up)
+
+theorem ediag_index (es1 es2 : List (ERow F F)) (h : es1.map ediag = es2.map ediag) :
+    es1.length = es2.length ∧ ∀ i (h1 : i < es1.length) (h2 : i < es2.length),
+      es1[i].mid = es2[i].mid ∧ es1[i].up = es2[i].up := by
+  have hl : es1.length = es2.length := by simpa using congrArg List.length h
+  refine ⟨hl, ?_⟩
+  intro i h1 h2
+  have := List.getElem_of_eq h (i := i) (by simpa using h1)
+  simp only [List.getElem_map, ediag, Prod.mk.injEq] at this
+  exact this
+
+theorem sameDiag_fwd (pm pu p1 p2 : F) (rows1 rows2 : List (Row F F)) (h : SameDiag rows1 rows2) :
+    (fwd pm pu p1 rows1).map ediag = (fwd pm pu p2 rows2).map ediag := by
+  induction rows1 generalizing rows2 pm pu p1 p2 with
+  | nil => cases rows2 <;> simp [fwd, SameDiag] at h ⊢
+  | cons r rest ih =>
+    cases rows2 with
+    | nil => simp [SameDiag] at h
+    | cons s ss =>
+      obtain ⟨h1, h2, h3, h4⟩ := h
+      simp only [fwd, List.map_cons, map2_scalar, ediag]
+      rw [ih _ _ _ (s.rhs - s.lo / pm * p2) ss h4, h1, h2, h3]
+
+theorem sameDiag_fwdAll (rows1 rows2 : List (Row F F)) (h : SameDiag rows1 rows2) :
+    (fwdAll rows1).map ediag = (fwdAll rows2).map ediag := by
+  cases rows1 with
+  | nil => cases rows2 <;> simp [fwdAll, SameDiag] at h ⊢
+  | cons r rest =>
+    cases rows2 with
+    | nil => simp [SameDiag] at h
+    | cons s ss =>
+      obtain ⟨h1, h2, h3, h4⟩ := h
+      simp only [fwdAll, List.map_cons, ediag]
+      rw [sameDiag_fwd r.mid r.up r.rhs s.rhs rest ss h4, h2, h3]
+
+theorem fwdAll_add (rows1 rows2 : List (Row F F)) (h : SameDiag rows1 rows2) :
+    fwdAll (List.zipWith addRow rows1 rows2) = List.zipWith addERow (fwdAll rows1) (fwdAll rows2) := by
+  cases rows1 with
+  | nil => cases rows2 <;> simp [fwdAll]
+  | cons r rest =>
+    cases rows2 with
+    | nil => simp [SameDiag] at h
+    | cons s ss =>
+      obtain ⟨h1, h2, h3, h4⟩ := h
+      simp only [List.zipWith_cons_cons, fwdAll, addRow, addERow]
+      have := fwd_add r.mid r.up r.rhs s.rhs rest ss h4
+      rw [this, ← h2, ← h3]
+
+/-- **the tridiagonal solve is additive in the right-hand sides** -/
+theorem thomas_add (rows1 rows2 : List (Row F F)) (h : SameDiag rows1 rows2) :
+    thomas (List.zipWith addRow rows1 rows2) = List.zipWith (· + ·) (thomas rows1) (thomas rows2) := by
+  simp only [thomas, fwdAll_add rows1 rows2 h]
+  exact back_add _ _ (ediag_index _ _ (sameDiag_fwdAll rows1 rows2 h))
+
+theorem sameDiag_append (a1 a2 b1 b2 : List (Row F F)) (ha : SameDiag a1 a2) (hb : SameDiag b1 b2) :
+    SameDiag (a1 ++ b1) (a2 ++ b2) := by
+  induction a1 generalizing a2 with
+  | nil => cases a2 <;> simp [SameDiag] at ha ⊢; exact hb
+  | cons r rest ih =>
+    cases a2 with
+    | nil => simp [SameDiag] at ha
+    | cons s ss =>
+      obtain ⟨h1, h2, h3, h4⟩ := ha
+      exact ⟨h1, h2, h3, ih ss h4⟩
+
+theorem zipWith_add_append (a1 a2 b1 b2 : List (Row F F)) (h : a1.length = a2.length) :
+    List.zipWith addRow (a1 ++ b1) (a2 ++ b2) = List.zipWith addRow a1 a2 ++ List.zipWith addRow b1 b2 :=
+  List.zipWith_append h
+
+theorem interiorRows_add (xs ys zs : List F) (hl : ys.length = zs.length) :
+    interiorRows xs (List.zipWith (· + ·) ys zs) =
+      List.zipWith addRow (interiorRows xs ys) (interiorRows xs zs) ∧
+    SameDiag (interiorRows xs ys) (interiorRows xs zs) := by
+  induction xs generalizing ys zs with
+  | nil => cases ys <;> cases zs <;> simp [interiorRows, SameDiag]
+  | cons x0 xs ih =>
+    match xs, ys, zs, hl with
+    | [], ys, zs, _ => cases ys <;> cases zs <;> simp [interiorRows, SameDiag]
+    | [x1], ys, zs, _ => simp [interiorRows, SameDiag]
+    | x1 :: x2 :: xs', [], [], _ => simp [interiorRows, SameDiag]
+    | x1 :: x2 :: xs', [y0], [z0], _ => simp [interiorRows, SameDiag]
+    | x1 :: x2 :: xs', [y0, y1], [z0, z1], _ => simp [interiorRows, SameDiag]
+    | x1 :: x2 :: xs', y0 :: y1 :: y2 :: ys', z0 :: z1 :: z2 :: zs', hl =>
+      have := ih (y1 :: y2 :: ys') (z1 :: z2 :: zs') (by simpa using hl)
+      simp only [List.zipWith_cons_cons] at this
+      simp only [List.zipWith_cons_cons, interiorRows, SameDiag, addRow, map3_scalar, true_and]
+      refine ⟨?_, this.2⟩
+      rw [this.1]
+      congr 2
+      ring
+
+end add
+
+/-- boundary derivative values added (both boundaries of the same kind) -/
+def SingleBoundary.add : SingleBoundary F → SingleBoundary F → SingleBoundary F
+  | .firstDeriv a, .firstDeriv b => .firstDeriv (a + b)
+  | .secondDeriv a, .secondDeriv b => .secondDeriv (a + b)
+  | l, _ => l
+
+/-- two boundary selections of the same kind -/
+def SingleBoundary.sameKind : SingleBoundary F → SingleBoundary F → Bool
+  | .notAKnot, .notAKnot => true
+  | .natural, .natural => true
+  | .clamped, .clamped => true
+  | .firstDeriv _, .firstDeriv _ => true
+  | .secondDeriv _, .secondDeriv _ => true
+  | _, _ => false
+
+section
+variable [Cmp F]
+
+theorem sysRows_add (xs ys zs : List F) (hy : ys.length = xs.length) (hz : zs.length = xs.length)
+    (hn : 3 ≤ xs.length) (l1 l2 r1 r2 : SingleBoundary F)
+    (hl : l1.sameKind l2 = true) (hr : r1.sameKind r2 = true) :
+    sysRows xs (List.zipWith (· + ·) ys zs) (by simp [hy, hz]) hn (l1.add l2) (r1.add r2) =
+      List.zipWith addRow (sysRows xs ys hy hn l1 r1) (sysRows xs zs hz hn l2 r2) ∧
+    SameDiag (sysRows xs ys hy hn l1 r1) (sysRows xs zs hz hn l2 r2) := by
+  have hnak : isNakPair (l1.add l2) (r1.add r2) = isNakPair l1 r1 ∧ isNakPair l2 r2 = isNakPair l1 r1 := by
+    cases l1 <;> cases l2 <;> simp [SingleBoundary.sameKind] at hl <;>
+      cases r1 <;> cases r2 <;> simp [SingleBoundary.sameKind] at hr <;> exact ⟨rfl, rfl⟩
+  unfold sysRows
+  rw [hnak.1, hnak.2]
+  split
+  · simp only [parabolaRows, endsOf, Ends.dx0, Ends.dx1, map1_scalar, map2_scalar, List.getElem_zipWith, List.zipWith_cons_cons,
+      List.zipWith_nil_right, addRow, SameDiag, and_self, and_true]
+    refine congrArg₂ _ ?_ (congrArg₂ _ ?_ (congrArg₂ _ ?_ rfl)) <;> (congr 1; ring)
+  · have hf : ∃ f1 f2, firstRow (endsOf xs ys hy hn) l1.specialize = some f1 ∧
+        firstRow (endsOf xs zs hz hn) l2.specialize = some f2 ∧
+        firstRow (endsOf xs (List.zipWith (· + ·) ys zs) (by simp [hy, hz]) hn) (l1.add l2).specialize =
+          some (addRow f1 f2) ∧ f1.lo = f2.lo ∧ f1.mid = f2.mid ∧ f1.up = f2.up := by
+      cases l1 <;> cases l2 <;> simp [SingleBoundary.sameKind] at hl <;>
+        (refine ⟨_, _, rfl, rfl, ?_, rfl, rfl, rfl⟩
+         simp only [SingleBoundary.add, SingleBoundary.specialize, firstRow, endsOf, Ends.dx0, Ends.dx1, addRow,
+           map3_scalar, map2_scalar, const_scalar, List.getElem_zipWith, c0_eq, c2_eq, c3_eq, sq]
+         try (first | rfl | (congr 2; ring)))
+    have hlr : ∃ f1 f2, lastRow (endsOf xs ys hy hn) r1.specialize = some f1 ∧
+        lastRow (endsOf xs zs hz hn) r2.specialize = some f2 ∧
+        lastRow (endsOf xs (List.zipWith (· + ·) ys zs) (by simp [hy, hz]) hn) (r1.add r2).specialize =
+          some (addRow f1 f2) ∧ f1.lo = f2.lo ∧ f1.mid = f2.mid ∧ f1.up = f2.up := by
+      cases r1 <;> cases r2 <;> simp [SingleBoundary.sameKind] at hr <;>
+        (refine ⟨_, _, rfl, rfl, ?_, rfl, rfl, rfl⟩
+         simp only [SingleBoundary.add, SingleBoundary.specialize, lastRow, endsOf, Ends.dxl1, Ends.dxl2, addRow,
+           map3_scalar, map2_scalar, const_scalar, List.getElem_zipWith, c0_eq, c2_eq, c3_eq, sq, List.length_zipWith, hy, hz,
+           Nat.min_self]
+         try (first | rfl | (congr 2; ring)))
+    obtain ⟨f1, f2, e1, e2, e3, d1, d2, d3⟩ := hf
+    obtain ⟨g1, g2, e4, e5, e6, d4, d5, d6⟩ := hlr
+    have hi := interiorRows_add xs ys zs (by rw [hy, hz])
+    rw [e1, e2, e3, e4, e5, e6]
+    simp only []
+    rw [hi.1]
+    simp only [List.cons_append, List.zipWith_cons_cons]
+    have hlen : (interiorRows xs ys).length = (interiorRows xs zs).length := by
+      simp [interiorRows_length, hy, hz]
+    refine ⟨?_, d1, d2, d3, sameDiag_append _ _ _ _ hi.2 ⟨d4, d5, d6, trivial⟩⟩
+    rw [List.zipWith_append hlen]
+    rfl
+
+/-- **the spline's slopes are additive in data and boundary values** -/
+theorem solveForK_add (xs ys zs : List F) (hy : ys.length = xs.length) (hz : zs.length = xs.length)
+    (hn : 3 ≤ xs.length) (l1 l2 r1 r2 : SingleBoundary F)
+    (hl : l1.sameKind l2 = true) (hr : r1.sameKind r2 = true) :
+    solveForK (V := F) xs (List.zipWith (· + ·) ys zs) (.mixed (l1.add l2) (r1.add r2)) =
+      .ok (List.zipWith (· + ·) (thomas (sysRows xs ys hy hn l1 r1)) (thomas (sysRows xs zs hz hn l2 r2))) := by
+  have h := sysRows_add xs ys zs hy hz hn l1 l2 r1 r2 hl hr
+  rw [solveForK_mixed xs _ (by simp [hy, hz]) hn, h.1, thomas_add _ _ h.2]
+
+end
+
+omit [LinearOrder F] [IsStrictOrderedRing F] in
+/-- a piece of summed data and slopes is the sum of the pieces -/
+theorem pieceCubic_add (xl xr yl yr kl kr yl' yr' kl' kr' q : F) :
+    (pieceCubic xl xr (yl + yl') (yr + yr') (kl + kl') (kr + kr')).eval q =
+      (pieceCubic xl xr yl yr kl kr).eval q + (pieceCubic xl xr yl' yr' kl' kr').eval q := by
+  simp only [pieceCubic, Cubic.eval]
+  ring
+
 omit [LinearOrder F] [IsStrictOrderedRing F] in
 /-- a piece with data and slopes multiplied by `c` is `c` times the piece -/
 theorem pieceCubic_scale (c xl xr yl yr kl kr q : F) :
